@@ -631,6 +631,32 @@ def expr_complex_comparison_of_computed_real_value():
     return [(c * f, pts), (ufl.conditional(ufl.gt(ufl.real(f) * x[0], 0.25), f, ufl.conj(f)) / c, pts)], {"scalar_type": "complex128"}
 
 
+@entry("quick")
+def facets_vp1_triangle_minus():
+    """interior-facet integral on a BLOCKED (vector-valued) space with '-' restrictions of arguments and of a
+    coefficient: the '-' halves of A and w start at the (blocked) element dimension"""
+    ufl, _, _ = _U()
+    m = mesh("triangle")
+    V = space(m, "Lagrange", 1, shape=(2,))
+    u, v = tt(V)
+    f = ufl.Coefficient(V)
+    a = ufl.inner(ufl.jump(u), ufl.jump(v)) * ufl.dS + ufl.inner(u("-"), v("+")) * ufl.dS
+    L = ufl.inner(f("-"), v("+")) * ufl.dS + ufl.inner(f("+"), v("-")) * ufl.dS
+    return [a, L], {}
+
+
+@entry("quick", "expr")
+def expr_zero_components():
+    """expressions with identically zero components (a literal zero in a vector, the Hessian of a P1 function): every
+    component is accumulated into A, also the ones that add nothing"""
+    ufl, _, _ = _U()
+    m = mesh("triangle")
+    V = space(m, "Lagrange", 1)
+    f, u = ufl.Coefficient(V), ufl.TrialFunction(V)
+    pts = np.array([[0.25, 0.25], [0.5, 0.125]])
+    return [(ufl.as_vector((f.dx(0), f.dx(1), 0)), pts), (ufl.grad(ufl.grad(u)), pts), (ufl.as_vector((0 * f, f)), pts)], {}
+
+
 @entry("quick", "expr")
 def expr_interval_two_coefficients():
     ufl, _, _ = _U()
